@@ -144,7 +144,7 @@ def draw_template(g, data, in_map=False, depth=0):
     tpl = {}
     for i in range(n):
         key = d(st.sampled_from(["p", "q", "k", "a", "m"])) + ("" if i == 0 else str(i))
-        kind = d(st.sampled_from(["lit", "path", "path", "ctx", "intrinsic", "nest"] + (["item", "item"] if in_map else [])))
+        kind = d(st.sampled_from(["lit", "path", "path", "ctx", "intrinsic", "nest"] + (["item", "item", "ctx"] if in_map else [])))
         if kind == "lit":
             tpl[key] = d(small_json(3))
         elif kind == "path":
@@ -152,7 +152,8 @@ def draw_template(g, data, in_map=False, depth=0):
             tpl[key + ".$"] = p
             g.feature("template-path")
         elif kind == "ctx":
-            tpl[key + ".$"] = d(st.sampled_from(["$$.Execution.Input", "$$.State.Name", "$$.Execution.Input.n"]))
+            # (inside an ItemSelector $$.State.Name is the Map state's name for every item, not the name of the Iterator's first state)
+            tpl[key + ".$"] = d(st.sampled_from(["$$.Execution.Input", "$$.State.Name", "$$.Execution.Input.n"] + (["$$.State.Name"] * 3 if in_map else [])))
             g.feature("template-context")
         elif kind == "item":
             tpl[key + ".$"] = d(st.sampled_from(["$$.Map.Item.Value", "$$.Map.Item.Index"]))
@@ -548,6 +549,13 @@ def gen_map(g, name, data, depth, allow_errors):
         g.feature("map-failing-item")
         if g.cfg.get("fanout_handlers", True):
             add_fanout_handlers(g, s)
+    elif s.get("ItemSelector") and d(st.integers(0, 2)) == 0:
+        # the iteration hands its input on unchanged: what the ItemSelector built for every item is what the Map state collects
+        pn = g.names.fresh()
+        s[key] = {"StartAt": pn, "States": {pn: {"Type": d(st.sampled_from(["Pass", "Succeed"]))}}}
+        if s[key]["States"][pn]["Type"] == "Pass":
+            s[key]["States"][pn]["End"] = True
+        g.feature("map-selector-passed-through")
     else:
         # the iterator is generated against the first item; paths inside it may miss for other items
         saved = g.cfg.get("misses", True)
